@@ -575,9 +575,9 @@ func (he *HashEntry) String() string {
 
 func (he *HashEntry) ToKey(b *bytes.Buffer) {
 	b.WriteByte(0)
-	b.WriteByte(HkEntry)
-	appendKey(b, he.key)
-	appendKey(b, he.value)
+	b.WriteByte(HkArray) // An entry equals an array with the same two elements
+	appendElementKey(b, he.key)
+	appendElementKey(b, he.value)
 }
 
 func (he *HashEntry) ToString(b io.Writer, s px.FormatContext, g px.RDetect) {
@@ -1203,8 +1203,16 @@ func (hv *Hash) String() string {
 func (hv *Hash) ToKey(b *bytes.Buffer) {
 	b.WriteByte(0)
 	b.WriteByte(HkHash)
-	for _, e := range hv.entries {
-		e.ToKey(b)
+	// Equal hashes have equal keys regardless of the order of their entries
+	keys := make([]string, len(hv.entries))
+	for i, e := range hv.entries {
+		eb := bytes.NewBuffer(make([]byte, 0, 32))
+		appendElementKey(eb, e)
+		keys[i] = eb.String()
+	}
+	sort.Strings(keys)
+	for _, k := range keys {
+		b.WriteString(k)
 	}
 }
 
